@@ -166,7 +166,7 @@ CLAIMED = {
                 '(substitution sets are immutable values, so bindings of an abandoned alternative cannot reach a later answer). '
                 'The statement itself - the answer sequence equals that of depth-first, left-to-right, clause-order resolution, in order and multiplicity, up to renaming - is a whole-history equivalence and is checked BOUNDED only: '
                 '3000 random stratified programs per seed against a reference interpreter (c01_prog), and solve_all() formatting on 1500 more (c01_solve_all).',
-        'note': 'Only the per-node clauses are proved; the equivalence is bounded. Trusted: heap model (T8), R15 (T4). unify / get_rule abstract in the unit (C06, C10 are their own properties). format_solution not under contract.',
+        'note': 'Only the per-node clauses are proved; the equivalence is bounded. Trusted: heap model (T8), R15 (T4). unify / get_rule abstract in the unit (C06, C10 are their own properties). format_solution is proved (unit print) to write `$Var = value` per query variable in argument order, under the precondition that result and query have the same arity.',
         'technique': 'contract-based deductive verification (Verus) of extracted real code (per-node clauses) + bounded differential comparison with a reference interpreter on random programs',
         'design_ref': 'DESIGN.md 8.27',
     },
